@@ -12,7 +12,8 @@ Line protocol of the C14 correspondence stream (`umh_nodes`):
 * `nodes` → canonical `CLUSTER NODES` reply (lines sorted, slot tokens of a line sorted, `|`-joined)
 * `slots` → canonical `CLUSTER SLOTS` reply (`start-end@host:port#id` sorted, `|`-joined; `E:<text>` on error)
 * `probe <slot>` → the routing outcome of a command whose key hashes to `<slot>` (`routeSlot`, only for slots
-  outside every local migration task)
+  outside every local migration task): `exec <node>` / `moved <slot> <addr>` / `forward <slot> <addr>` (the
+  UMFORWARD budget is C09's observable and is not printed) / `notcovered <slot>` / `clusternotfound` / …
 -/
 namespace Um.Drv.Nodes
 open Um Um.Route Um.RouteCmd Um.Nodes
